@@ -54,6 +54,10 @@ EPS = 2.0 ** -52
 # (viscosity = ratio of two interpolants, PVTW polynomials) then differ by h f''/f' ~ 1e-7..1e-6 relative, below the
 # 1e-6 tolerance, while rounding noise eps/h = 2e-9 (times the conditioning f/(f' x)) stays small
 HREL = 1.0e-7
+# every quotient is also formed with the step BIG*h: rounding noise of the function values (large where a point is
+# extrapolated in both table directions: the bilinear terms cancel) is 100 times smaller there, curvature and the
+# chance of a kink inside the step larger.  A derivative is rejected only if it fails with both steps.
+BIG = 100.0
 
 
 def dec(k, d):
@@ -333,9 +337,11 @@ class C14(Check):
         "interpolation where Rv/Rv_sat is 0/0)",
         "link-time placeholders for the CO2/H2 property tables (empty .inc files in this sandbox) are never read",
     ]
-    EXAMPLES = {"quick": 45, "thorough": 1500}
-    MIN_EVALS = {"quick": 400, "thorough": 12000}
-    TIME_CAP = {"quick": 150, "thorough": 1100}
+    # measured: 0.15 s per deck and shard on an idle machine (EclipseState construction dominates), up to 1 s when the
+    # 16 cores are shared; the soft time cap keeps the tiers inside 3 / 20 minutes either way
+    EXAMPLES = {"quick": 120, "thorough": 3000}
+    MIN_EVALS = {"quick": 500, "thorough": 8000}
+    TIME_CAP = {"quick": 140, "thorough": 1050}
     LEVEL_TEXT = ("Generated-input search with an independent table oracle: node exactness of B, mu, Rs/Rv against the "
                   "numbers written into the deck (own unit table), bracketing inside every 1-D table segment, "
                   "continuity of undersaturated functions on the saturated line (at and between nodes), inversion "
@@ -545,10 +551,14 @@ class C14(Check):
                                  (SAT_R, RS[i], RS[i + 1])):
                     qs.append(Q(ph, fn, reg, p, 0.0, w, lo=min(a, b), hi=max(a, b), ad_r=False))
                 # the saturated line itself: (p, Rsat(p)) evaluated by chaining the library's own functions
-                qs.append(Q(ph, C_INVB, reg, p, 0.0, w + "-cont", ad_r=False))
-                qs.append(Q(ph, C_MU, reg, p, 0.0, w + "-cont", ad_r=False))
+                # (no derivative check for the compositions: the sensitivity to the inner Rsat(p) is not observable
+                #  in their result, so the rounding noise of the difference quotients cannot be bounded; the parts are
+                #  checked on their own)
+                qs.append(Q(ph, C_INVB, reg, p, 0.0, w + "-cont", ad_p=False, ad_r=False))
+                qs.append(Q(ph, C_MU, reg, p, 0.0, w + "-cont", ad_p=False, ad_r=False))
                 if incr:
-                    qs.append(Q(ph, C_PSAT, reg, p, 0.0, w + "-cont", exp=p, tol=1e-6, ad_r=False, key=pkey))
+                    qs.append(Q(ph, C_PSAT, reg, p, 0.0, w + "-cont", exp=p, tol=1e-6, ad_p=False, ad_r=False,
+                                key=pkey))
                 # interior 2-D point: between the two lines, on the single-phase side of the saturated line
                 xm = X[i] + nt() * (X[i + 1] - X[i])
                 if oil:
@@ -561,7 +571,9 @@ class C14(Check):
         for p in (PS[0] * (0.2 + 0.7 * nt()), PS[-1] * (1.05 + nt())):
             for fn in (SAT_INVB, SAT_MU, SAT_R):
                 qs.append(Q(ph, fn, reg, p, 0.0, "beyond", ad_r=False))
-        xo = X[-1] * (1.05 + nt())
+        # beyond the last outer node by at most one outer spacing: a point extrapolated far in BOTH table directions
+        # is a sum of cancelling bilinear terms alpha*beta*dv whose rounding noise no first derivative bounds
+        xo = X[-1] + nt() * (X[-1] - X[-2])
         p2, r2 = pr(xo, Y[-1][0] * (1.3 if oil else 0.5))
         qs.append(Q(ph, INVB, reg, p2, r2, "beyond"))
         qs.append(Q(ph, MU, reg, p2, r2, "beyond"))
@@ -583,7 +595,7 @@ class C14(Check):
             if not q.ad_r:
                 q.hr = 0.0
         wire = [[q.ph, q.fn, q.reg, q.p.hex(), float(q.r).hex(), float(q.hp).hex(), float(q.hr).hex()] for q in qs]
-        rep = ctx.P.call("pvt_eval", deck=deck_text(case), queries=wire)
+        rep = ctx.P.call("pvt_eval", deck=deck_text(case), queries=wire, big=BIG)
         want_o = {"PVTO": "live", "PVDO": "dead", "PVCDO": "constcomp"}[case["oil"]["kind"]]
         want_g = {"PVTG": "wet", "PVDG": "dry"}[case["gas"]["kind"]]
         ap = rep["approach"]
@@ -629,7 +641,7 @@ class C14(Check):
                 return V("evaluation throws at a point inside the table")
             ctx.label("beyond:throws")
             return None
-        vd, va, dp, dr, _dt, fpm, fpp, frm, frp = [hexf(x) for x in r]
+        vd, va, dp, dr, _dt, fpm, fpp, frm, frp, gpm, gpp, grm, grp = [hexf(x) for x in r]
         if not all(map(math.isfinite, (vd, va, dp, dr))):
             if promised:
                 return V("non-finite value inside the table")
@@ -687,33 +699,47 @@ class C14(Check):
         if q.fn in (INVB, MU) and q.where.endswith("-node") and q.exp is not None:
             pass  # continuity at nodes is implied by (i) on both the undersaturated and the saturated function
         # ---- (v) derivatives vs difference quotients of the double-valued function
-        for name, h, fm, fp_, d in (("p", q.hp, fpm, fpp, dp), ("r", q.hr, frm, frp, dr)):
-            if h == 0.0:
+        for name, h0, d, nb in (("p", q.hp, dp, ((fpm, fpp), (gpm, gpp))), ("r", q.hr, dr, ((frm, frp), (grm, grp)))):
+            if h0 == 0.0:
                 continue
-            if not (math.isfinite(fm) and math.isfinite(fp_)):
-                continue
-            sl, sr = (vd - fm) / h, (fp_ - vd) / h
-            big = max(abs(sl), abs(sr))
-            # rounding of one function value: the viscosity is a ratio of two interpolants, each a sum of terms of
-            # size mag with a few roundings -> up to ~2^7 ulps of mag; difference of two such values, divided by h
-            noise = 4 * 128 * EPS * max(mag, abs(fm), abs(fp_)) / h
-            if abs(sl - sr) <= 1e-6 * big + noise:
-                # smooth inside the step: the central quotient has error O(h^2) + noise
+            verdicts = []
+            for (fm, fp_), h in zip(nb, (h0, BIG * h0)):
+                if not (math.isfinite(fm) and math.isfinite(fp_)):
+                    verdicts.append(("skip", None))
+                    continue
+                sl, sr = (vd - fm) / h, (fp_ - vd) / h
+                big = max(abs(sl), abs(sr))
+                # rounding of one function value: a sum of terms of size mag with a few roundings each, the viscosity
+                # a ratio of two such sums -> ~2^7 ulps of mag; difference of two such values, over h.  mag is only a
+                # first-order estimate of the term sizes (ill-conditioned interpolation weights, e.g. a tiny Rs
+                # spacing at a large Rs combined with a large guide shift, are second-order effects), hence a further
+                # safety factor 100.  With the wide step that still is 1e-6 * (mag / |f' x|).
+                noise = 100 * 4 * 128 * EPS * max(mag, abs(fm), abs(fp_)) / h
+                info = {"left": sl, "right": sr, "ad": d, "h": h}
+                if abs(sl - sr) <= 1e-6 * big + noise:
+                    # smooth inside the step: the central quotient has error O(h^2) + noise
+                    ok = abs(d - 0.5 * (sl + sr)) <= 1e-6 * big + noise
+                    verdicts.append(("S_ok" if ok else "S_fail", info))
+                elif q.nd == name:
+                    # a table node along a table line: the function is linear (or a smooth ratio a/c) on either side
+                    # over a width >> h, so a derivative "equal to the slope of the returned function" is one of the
+                    # one-sided slopes or lies between them; one-sided quotient of a/c: truncation h |c'/c| (x2 margin)
+                    tol = (1e-6 + 2 * h * q.curv) * big + noise
+                    ok = min(sl, sr) - tol <= d <= max(sl, sr) + tol
+                    verdicts.append(("N_ok" if ok else "N_fail", info))
+                else:
+                    verdicts.append(("kink", info))
+            small, wide = verdicts[0][0], verdicts[1][0]
+            # A derivative is rejected only if it disagrees with the quotients of BOTH step sizes (a kink inside a
+            # step never counts against it: clusters of small kinks next to table nodes can average out to equal
+            # left and right quotients in the wide step).
+            if small in ("S_fail", "N_fail") and wide in ("S_fail", "N_fail"):
+                return V("(v) derivative wrt %s from the Evaluation differs from the slope of the double-valued "
+                         "function (difference quotients with two step sizes)" % name, [v[1] for v in verdicts])
+            if wide == "S_ok" or small == "S_ok":
                 ctx.label("checked:ad-" + name)
-                if abs(d - 0.5 * (sl + sr)) > 1e-6 * big + noise:
-                    return V("(v) derivative wrt %s from the Evaluation differs from the slope of the double-valued "
-                             "function" % name, {"left": sl, "right": sr, "ad": d, "h": h})
-            elif q.nd == name:
-                # a table node along a table line: the function is linear (or a smooth ratio) on either side over a
-                # width >> h, so a derivative "equal to the slope of the returned function" is one of the one-sided
-                # slopes or lies between them
+            elif small == "N_ok" or wide == "N_ok":
                 ctx.label("checked:ad-" + name + "-at-node")
-                lo, hi = min(sl, sr), max(sl, sr)
-                # one-sided quotient of a ratio of two linear interpolants: truncation h |c'/c| (x2 margin)
-                tol = (1e-6 + 2 * h * q.curv) * big + noise
-                if not (lo - tol <= d <= hi + tol):
-                    return V("(v) derivative wrt %s at a table node lies outside the one-sided slopes of the "
-                             "double-valued function" % name, {"left": sl, "right": sr, "ad": d, "h": h})
             else:
-                ctx.label("ad:kink-skipped")
+                ctx.label("ad:undecided-kink-or-noise")
         return None
